@@ -1,5 +1,5 @@
 (* Driver for M3 (server lifecycle).  Trace: first line "kind tcp|unix", then one label per line:
-   start | connect | send <c> | leave <c> | stop.  Output: one observation line per label. *)
+   start | connect | connectbad | open | hello <c> | send <c> | leave <c> | stop.  Output: one observation line per label. *)
 open Common
 open SModel
 
@@ -8,6 +8,8 @@ let parse_label (s : string) : label =
   | ["start"] -> LStart
   | ["connect"] -> LConnect
   | ["connectbad"] -> LConnectBad
+  | ["open"] -> LOpen
+  | ["hello"; c] -> LHello (ni c)
   | ["send"; c] -> LSend (ni c)
   | ["leave"; c] -> LLeave (ni c)
   | ["stop"] -> LStop
